@@ -63,6 +63,16 @@ Operations (JSON-able):
         `late` (early bound to pid); after the k-th Task object was created (and
         none is registered yet) another thread runs `op` (a 'pilot_final').
         Recorded as SubmitBegin, <events of op unless it has to wait>, SubmitEnd.
+    ['cb_register', name, scope, metric]     scope '*' (TaskManager.register_callback)
+    ['cb_unregister', name, scope, metric]   or a task uid (Task.register_callback /
+        TaskManager.unregister_callback); metric 'state' | 'wait'.  `name` stands
+        for one callback object: the same object may be registered on several
+        scopes.  What every such callback is told is compared with what the
+        rig's own manager-wide recorder is told.
+    ['pnotify_race', batch, [pid, k, op]]    PilotManager._state_sub_cb; when
+        Pilot._update of pid dispatches its callbacks for the k-th time (the lock
+        pilot._cb_lock is held), another thread runs `op` (a 'pilot_register')
+    ['pilot_register', pid, name]            real Pilot.register_callback
     ['app_cb', 'cancel_pilot']               registers (real register_callback) an
         application callback that cancels the pilot of a task that FAILED
         (Pilot.cancel -> PilotManager.cancel_pilots -> wait_pilots); the cancel
@@ -288,7 +298,9 @@ class TrackingLock(object):
 
 LTHREAD = {'notify': 'sub', 'bind': 'sub', 'notify_race': 'sub', 'task_update': 'app',
            'pilot_final': 'pcb', 'death_race': 'pcb', 'pnotify': 'pmgr',
-           'api': 'app', 'submit': 'app', 'pilot_cancel': 'app', 'service_info': 'ctl'}
+           'api': 'app', 'submit': 'app', 'pilot_cancel': 'app', 'service_info': 'ctl',
+           'cb_register': 'app', 'cb_unregister': 'app', 'pilot_register': 'app',
+           'pnotify_race': 'pmgr'}
 
 BASE_TABLES = _tables()
 if BASE_TABLES['FINAL'] != [rps.DONE, rps.FAILED, rps.CANCELED]:
@@ -330,7 +342,8 @@ class FakePilot(object):
 # ------------------------------------------------------------------------------
 class ClientRig(object):
 
-    def __init__(self, tasks, pilots, init_bound=None, modes=None, add=None, late=None):
+    def __init__(self, tasks, pilots, init_bound=None, modes=None, add=None, late=None,
+                 bulk=False):
         '''modes: {uid: 'service'} (default: executable tasks);
            add  : how the pilots reach the task manager at start: list of groups,
                   a group is a pid (add_pilots(pilot)) or a list of pids
@@ -354,6 +367,11 @@ class ClientRig(object):
         self.blocking   = set()             # logical threads run as injected operations
         self.deadlock   = None
         self.clock      = VClock()
+        self.bulk       = bool(bulk)        # task_manager._USE_BULK_CB for this history
+        self.recs       = dict()            # name -> application callback object
+        self.rlog       = list()            # (name, uid, announced, Task.state)
+        self.live       = dict()            # (name, scope) -> registered for TASK_STATE
+        self._prace     = None              # pnotify_race in progress
         self._unregistered = dict()         # Task objects created, not yet known to the tmgr
         self._cancel_asked = set()
         self._nr_events    = None
@@ -405,9 +423,11 @@ class ClientRig(object):
 
         # real registration paths: manager-level (wildcard, with cb_data) and
         # task-level (uid specific)
+        # (one callback object for all tasks: Task.register_callback keys by id)
+        self._cb_task = self._task_cb_task
         tm.register_callback(self._task_cb_mgr, cb_data={'rig': 1})
         for uid in tm._tasks:
-            tm._tasks[uid].register_callback(self._task_cb_task)
+            tm._tasks[uid].register_callback(self._cb_task)
 
         # ---- pilot manager --------------------------------------------------
         pm = PilotManager.__new__(PilotManager)
@@ -504,11 +524,32 @@ class ClientRig(object):
     def _tm_advance(self, things, state=None, publish=True, push=False, **kw):
         self.published.append([dict(t) for t in ru.as_list(things)])
 
-    def _task_cb_mgr(self, task, state, cb_data):
-        self.tlog.append((task.uid, tcode(state), tcode(task.state)))
+    # per state: cb(task, state[, cb_data]); bulk mode: cb([tasks][, cb_data]),
+    # the announced state is the task's state at that time
+    def _task_cb_mgr(self, task, state, cb_data=None):
+        if isinstance(task, list):
+            for t in sorted(task, key=lambda x: x.uid):
+                self.tlog.append((t.uid, tcode(t.state), tcode(t.state)))
+        else:
+            self.tlog.append((task.uid, tcode(state), tcode(task.state)))
 
-    def _task_cb_task(self, task, state):
-        self.ulog.append((task.uid, tcode(state), tcode(task.state)))
+    def _task_cb_task(self, task, state=None):
+        if isinstance(task, list):
+            for t in sorted(task, key=lambda x: x.uid):
+                self.ulog.append((t.uid, tcode(t.state), tcode(t.state)))
+        else:
+            self.ulog.append((task.uid, tcode(state), tcode(task.state)))
+
+    def _rec(self, name):
+        '''the application callback object called `name`'''
+        if name not in self.recs:
+            def cb(task, state=None, cb_data=None):
+                for t in (sorted(task, key=lambda x: x.uid) if isinstance(task, list) else [task]):
+                    ann = t.state if isinstance(task, list) else state
+                    self.rlog.append((name, t.uid, tcode(ann), tcode(t.state)))
+            cb.__name__ = 'cb_%s' % name
+            self.recs[name] = cb
+        return self.recs[name]
 
     def _pilot_cb_mgr(self, pilot, state):
         if pilot.uid not in self.pilots:
@@ -524,6 +565,18 @@ class ClientRig(object):
             if pilot.uid not in self.pilots:
                 self.stray += 1
                 continue
+            race = self._prace
+            if race and race['op'] and pilot.uid == race['pid'] and not self._depth:
+                race['n'] += 1
+                if race['n'] >= race['k']:
+                    # Pilot._update is dispatching its callbacks (holding
+                    # pilot._cb_lock): another thread runs now
+                    act, race['op'] = race['op'], None
+                    evs = self._inject(act)
+                    if evs is None:
+                        race['waiting'].append(act)
+                    else:
+                        race['inner'].extend(evs)
             self.pplog.append((pilot.uid, pcode(pilot.state)))
             if pilot.state in rps.FINAL:
                 self.calls.append(pilot.uid)
@@ -531,7 +584,8 @@ class ClientRig(object):
     # ---- projection ---------------------------------------------------------------
     def _mark(self):
         return (len(self.tlog), len(self.ulog), len(self.plog), len(self.pplog),
-                len(self.calls), self.stray, len(self.published))
+                len(self.calls), self.stray, len(self.published),
+                len(self.rlog), dict(self.live))
 
     def _as_dict_works(self, task):
         try:
@@ -548,7 +602,7 @@ class ClientRig(object):
         return hit[0] if len(hit) == 1 else 'other'
 
     def _snapshot(self, mark):
-        m_t, m_u, m_p, m_pp, m_c, m_s, m_pub = mark
+        m_t, m_u, m_p, m_pp, m_c, m_s, m_pub, m_r, live = mark
         pub   = set(d.get('uid') for bulk in self.published[m_pub:] for d in bulk
                     if d.get('state') == rps.FAILED)
         tpost = dict()
@@ -557,7 +611,7 @@ class ClientRig(object):
             if task is None:                  # to be submitted later in this history
                 tpost[uid] = {'st': 0, 'cbs': [], 'at': [], 'tcbs': [], 'pilot': self.init_bound[uid],
                               'det': 'none', 'exc': False, 'pub': False, 'asd': True, 'inj': False,
-                              'sk': 'none', 'ex': False}
+                              'sk': 'none', 'ex': False, 'regs': [], 'stale': 0}
                 continue
             new  = [x for x in self.tlog[m_t:] if x[0] == uid]
             tpost[uid] = {'st'   : tcode(task.state),
@@ -573,6 +627,14 @@ class ClientRig(object):
                           'sk'   : 'dict' if isinstance(task._slots, dict) else
                                    'list' if task._slots else 'none',
                           'ex'   : uid in self.tm._tasks}        # known to the task manager
+            # application callbacks registered (when the operation started) for
+            # this task: [name, number of registrations covering the task, states
+            # it was told]; and calls of callbacks not registered for it
+            names = sorted(set(n for (n, sc) in live if sc in ('*', uid)))
+            tpost[uid]['regs']  = [[n, len([1 for (n2, sc) in live if n2 == n and sc in ('*', uid)]),
+                                    [x[2] for x in self.rlog[m_r:] if x[0] == n and x[1] == uid]]
+                                   for n in names]
+            tpost[uid]['stale'] = len([x for x in self.rlog[m_r:] if x[1] == uid and x[0] not in names])
         ppost = dict()
         for pid in self.pilots:
             pilot = self.pm._pilots[pid]
@@ -601,8 +663,12 @@ class ClientRig(object):
             return True, type(e).__name__
 
     def _notify(self, dicts):
-        return self._call(self.tm._state_sub_cb, rpc.STATE_PUBSUB,
-                          {'cmd': 'update', 'arg': dicts})
+        from unittest import mock
+        import radical.pilot.task_manager as tmod
+        # the dispatch mode is a module attribute read from the environment at import
+        with mock.patch.object(tmod, '_USE_BULK_CB', self.bulk):
+            return self._call(self.tm._state_sub_cb, rpc.STATE_PUBSUB,
+                              {'cmd': 'update', 'arg': dicts})
 
     def apply(self, op):
         '''run one operation against the real code, return the recorded events'''
@@ -721,6 +787,50 @@ class ClientRig(object):
                 task = self.tm._tasks.get(uid)
                 raised, ret = self._call(task._set_info, info) if task else (False, 'none')
             ev = {'ev': 'ServiceInfo', 'uid': uid, 'info': what}
+
+        elif kind in ('cb_register', 'cb_unregister'):
+            name, scope = op[1], op[2]
+            metric = rpc.TASK_STATE if (op[3] if len(op) > 3 else 'state') == 'state' \
+                     else rpc.WAIT_QUEUE_SIZE
+            cb = self._rec(name)
+            if kind == 'cb_register':
+                if scope == '*':
+                    raised, ret = self._call(self.tm.register_callback, cb, None, metric)
+                elif scope in self.tm._tasks:
+                    raised, ret = self._call(self.tm._tasks[scope].register_callback, cb, None, metric)
+                else:
+                    raised, ret = self._call(self.tm.register_callback, cb, None, metric, scope)
+                if not raised and metric == rpc.TASK_STATE:
+                    self.live[(name, scope)] = True
+            else:
+                raised, ret = self._call(self.tm.unregister_callback, cb, metric,
+                                         None if scope == '*' else scope)
+                if not raised and metric == rpc.TASK_STATE:
+                    self.live.pop((name, scope), None)
+            ev = {'ev': 'CbRegistry', 'what': kind, 'name': name, 'scope': scope}
+
+        elif kind == 'pilot_register':
+            pid, name = op[1], op[2]
+            def pcb(pilots, state=None):
+                pass
+            raised, ret = self._call(self.pm._pilots[pid].register_callback, pcb)
+            ev = {'ev': 'PilotRegister', 'pilot': pid}
+
+        elif kind == 'pnotify_race':
+            pid, k, act = op[2][0], int(op[2][1]), op[2][2]
+            self._prace = {'pid': pid, 'k': k, 'op': act, 'n': 0, 'inner': [], 'waiting': []}
+            race = self._prace
+            try:
+                events = self._apply(['pnotify', op[1]])
+            finally:
+                self._prace = None
+            # (the injected registration changes no state: shown after the notification)
+            events += race['inner']
+            for w in race['waiting']:
+                events += self._resume(w)
+            if race['op']:
+                events += self.apply(race['op'])
+            return events
 
         elif kind == 'app_cb':
             # an application callback with side effects, through the real registration
@@ -872,7 +982,7 @@ class ClientRig(object):
         for uid in uids:
             self._unregistered.pop(uid, None)
             if uid in self.tm._tasks:
-                self.tm._tasks[uid].register_callback(self._task_cb_task)
+                self.tm._tasks[uid].register_callback(self._cb_task)
         end = {'ev': 'SubmitEnd', 'uids': uids, 'pilot': pid, 'raised': raised, 'ret': ret}
         end.update(self._snapshot(self._mark()))
         events = [begin] + sub['inner'] + [end]
@@ -1047,7 +1157,7 @@ class ClientRig(object):
             self.close()
         return {'tasks': self.tasks, 'pilots': self.pilots,
                 'init_bound': self.init_bound, 'init_added': self.init_added,
-                'events': events}
+                'bulk': self.bulk, 'events': events}
 
     def close(self):
         '''end of a history: one history must not poison the next'''
@@ -1067,7 +1177,7 @@ class ClientRig(object):
                     out.append({'rm': rm, 'post': {u: {'st': pre[u], 'cbs': []} for u in self.tasks}})
                     continue                          # no clean second run to compare with
                 other = ClientRig(self.tasks, self.pilots, self.init_bound, self.modes, self.add,
-                                  self.late)
+                                  self.late, self.bulk)
                 tr    = other.run(list(ops[:k]) + [['notify', rest]], iso=False)
                 tpost = tr['events'][-1]['tpost']
                 post  = {u: {'st': tpost[u]['st'], 'cbs': tpost[u]['cbs']} for u in self.tasks}
@@ -1077,5 +1187,5 @@ class ClientRig(object):
         return out
 
 
-def run_ops(tasks, pilots, init_bound, ops, iso=True, modes=None, add=None, late=None):
-    return ClientRig(tasks, pilots, init_bound, modes, add, late).run(ops, iso=iso)
+def run_ops(tasks, pilots, init_bound, ops, iso=True, modes=None, add=None, late=None, bulk=False):
+    return ClientRig(tasks, pilots, init_bound, modes, add, late, bulk).run(ops, iso=iso)
